@@ -31,7 +31,7 @@ ERRNOS = {"open_error": (errno.EACCES, errno.ENOENT, errno.EMFILE),
           "write_error": (errno.ENOSPC, errno.EIO), "close_error": (errno.ENOSPC,),
           "read_error": (errno.EIO,), "listdir_error": (errno.EIO, errno.EACCES)}
 FAMILIES = ("csv", "gpx", "gpxdir", "net", "wkt", "setfmt", "mkfmt", "tz", "clock",
-            "reread", "read_unknown", "csvdir")
+            "reread", "read_unknown", "csvdir", "query")
 
 
 def _wchoice(r, pairs):
@@ -407,6 +407,9 @@ class IoWorld(World):
             st["fault"] = f
         return self._after(st)
 
+    def _gen_query(self, r, s, q):
+        return {"op": "query_refused", "track": self._gen_track(r, "ENU")}
+
     def _gen_clock(self, r, s, q):
         if r.random() < 0.5:
             return {"op": "clock_jump", "to": r.choice([1577836799, 1582934400, 946684799, 4102444799, 0])}
@@ -601,6 +604,19 @@ class IoWorld(World):
         ObsTime.setPrintFormat(f)
         self.fmt_print = f
         self.observed(f)
+
+    def op_query_refused(self, st):
+        """Another part of the library that knows the time formats: Track.query with a condition on a field
+        the track does not have is refused; the global formats stay what they were."""
+        tr = self._track(st["track"])
+        self._begin(st)
+        _, exc = self.call(tr.query, "SELECT * WHERE zz_no_such_field > 3")
+        if exc is not None and not isinstance(exc, Exception):
+            self.fail("C13", "csv.read.raised", "Track.query ended in %r" % (exc,))
+            return "raised"
+        self.probe("query_refused" if exc is not None else "query_not_refused")
+        self.observed(None if exc is None else type(exc).__name__)
+        return "rejected" if exc is not None else "ok"
 
     def op_clock_jump(self, st):
         self._begin(st)
